@@ -34,12 +34,18 @@ def plan(tier, seed):
     specs.append({"name": "catalogue", "kind": "catalogue", "timeout": 2400, "cpus": 4})
     if not q:
         specs.append({"name": "asan-layout", "kind": "layout", "build": "asan", "timeout": 3000})
+    # the repository's own tests as workload, with the ambient monitors of vf.ambient installed
+    if tier != "quick":
+        specs.append({"name": "ambient-tests", "kind": "ambient-tests", "files": ['test_Spectrum.py', 'test_Optimization.py', 'test_fs_from_data.py'], "timeout": 2400, "cpus": 4})
     return specs
 
 
 def required(tier):
-    return {"history-independent": 50, "hash-seed-independent": 12, "layout-independent": 100, "inputs-unmodified": 100,
+    r = {"history-independent": 50, "hash-seed-independent": 12, "layout-independent": 100, "inputs-unmodified": 100,
             "integrator-returns-fresh-array": 10, "call-returns": 100}
+    if tier != "quick":
+        r.update({'ambient-inputs-unmodified': 100})
+    return r
 
 
 def run_calls(calls, hashseed="0", layout=None, timeout=900):
@@ -53,6 +59,9 @@ def run_calls(calls, hashseed="0", layout=None, timeout=900):
 
 
 def run(spec, rec):
+    if spec.get("kind") == "ambient-tests":
+        from vf import ambient
+        return ambient.run_tests_batch(spec, rec, 'C20')
     kind = spec["kind"]
     if kind == "history":
         run_history(spec, rec)
